@@ -99,7 +99,7 @@ BASE_FILES = {
 DEP5_GOOD = "Format: https://www.debian.org/doc/packaging-manuals/copyright-format/1.0/\nUpstream-Name: x\n\nFiles: src/*\nCopyright: 2020 Jane\nLicense: MIT\n"
 
 
-def commands(files, has_dep5):
+def commands(files, has_dep5, with_download_all=True):
     target = "src/sub/b.py" if "src/sub/b.py" in files else next(iter(files))
     cmds = [["lint"], ["lint", "--json"], ["lint", "--lines"], ["lint-file", "src/a.py", target], ["spdx"], ["spdx", "-o", "bom.spdx"],
             ["annotate", "--copyright", "V", "--license", "MIT", "--year", "2020", *(["--template", "odd"] if ".reuse/templates/odd.jinja2" in files else []), target],
@@ -108,6 +108,8 @@ def commands(files, has_dep5):
             ["annotate", "--copyright", "V", "--license", "()", target], ["annotate", "--copyright", "V", "--license", "(AND 1", target],
             # every identifier the covered files use and LICENSES/ lacks (nobody answers at the address the tool is pointed at: each one fails cleanly)
             ["download", "--all"]]
+    if not with_download_all:
+        cmds = cmds[:-1]
     if has_dep5:
         cmds.append(["convert-dep5"])
     return cmds
@@ -140,7 +142,8 @@ def run_all(ctx, case, files, config_paths=(), expect_usage=False, fault_plan=No
                 fp.write(b"object\n")
         plan = {str(root / p): k for p, k in (fault_plan or {}).items()}
         has_dep5 = ".reuse/dep5" in files
-        for cmd in commands(files, has_dep5):
+        # (download --all builds the report with a worker pool: only where the identifiers come from generated file contents)
+        for cmd in commands(files, has_dep5, with_download_all=case.get("gen") == "content" and case.get("where") in ("file", "dotlicense")):
             # read faults are injected into the reading commands; a file that annotate is asked to rewrite
             # has to be readable and writable (click checks the latter before anything runs)
             with faults.injected(plan if cmd[0] in ("lint", "lint-file", "spdx") else {}), nobody_answers():
